@@ -176,6 +176,40 @@ func runC03(s *Svc, m *spec.Method, tier string) *MethodResult {
 	return r
 }
 
+// minimalResult returns a plain valid result value for the method (nil when it has none).
+func minimalResult(s *Svc, m *spec.Method) any {
+	if m.Result == nil {
+		return nil
+	}
+	sp := s.Spec
+	first := successResponses(m)[0]
+	l := ResponseLayout(sp, m, &first)
+	var fallback any
+	for _, v := range resultValues(s, m, l) {
+		if v == nil || len(sp.Check(m.Result, v, "")) > 0 || emptyRequiredOutsideBody(l, v) {
+			continue
+		}
+		if fallback == nil {
+			fallback = v
+		}
+		plain := true
+		if o, ok := v.(spec.Obj); ok {
+			for _, p := range l.Places {
+				if o[p.Attr] == nil {
+					plain = false
+				}
+				if sv, ok := o[p.Attr].(string); ok && stringClass(sv) != "plain" {
+					plain = false
+				}
+			}
+		}
+		if plain {
+			return v
+		}
+	}
+	return fallback
+}
+
 func minimalPayload(s *Svc, m *spec.Method) any {
 	if m.Payload == nil {
 		return nil
@@ -235,7 +269,14 @@ func c03One(s *Svc, m *spec.Method, v any, r *MethodResult, report bool) []strin
 		if p == nil {
 			return "attr=none"
 		}
-		return fmt.Sprintf("loc=%s type=%s req=%s value=%s", p.Loc, typeClass(sp, p.T), p.Req, valueClass(val))
+		ct := ""
+		if c := m.Feat["content-type"]; c != "" {
+			ct = " ct=" + c
+		}
+		if f := m.Feat["feature"]; f != "" && ct == "" {
+			ct = " feature=" + f
+		}
+		return fmt.Sprintf("loc=%s type=%s req=%s value=%s%s", p.Loc, typeClass(sp, p.T), p.Req, valueClass(val), ct)
 	}
 	if call.ServerPanic != "" {
 		fail("C03 server-panic "+panicSite(call.ServerPanic), "server handler panicked: "+call.ServerPanic)
@@ -398,7 +439,8 @@ func checkResponseLocations(s *Svc, m *spec.Method, l *Layout, sent any, call *C
 	cookies := resp.Cookies()
 	var bodyAny any
 	var bodyObj map[string]any
-	if call.Rec.Body.Len() > 0 {
+	bodyIsJSON := strings.Contains(hdr.Get("Content-Type"), "json") || hdr.Get("Content-Type") == ""
+	if call.Rec.Body.Len() > 0 && bodyIsJSON {
 		dec := json.NewDecoder(strings.NewReader(call.Rec.Body.String()))
 		dec.UseNumber()
 		if err := dec.Decode(&bodyAny); err == nil {
@@ -462,6 +504,9 @@ func checkResponseLocations(s *Svc, m *spec.Method, l *Layout, sent any, call *C
 			}
 		case spec.LocBody:
 			bodyAttrs[p.Wire] = true
+			if !bodyIsJSON {
+				continue // XML / gob / text bodies: the value equality oracle decides
+			}
 			if l.BodyKind == "attr" {
 				if !unsetLike(v) && !jsonCarries(sp, p.T, v, bodyAny) {
 					out = append(out, locFail{p, "body-value-mismatch", fmt.Sprintf("body %s does not carry %s", truncate(call.Rec.Body.String(), 200), spec.Canon(v))})
